@@ -624,9 +624,17 @@ class Interp:
             return ord(m.group(1))
         if t.endswith("]") and "::promoted[" in t or self.prog.const_body(t) is not None:
             return self.eval_const(t)
-        KNOWN = {"std::f64::consts::PI": math.pi, "core::f64::consts::PI": math.pi, "f64::consts::PI": math.pi}
-        for k, v in KNOWN.items():
-            if t.endswith(k) or t == "PI":
+        mc = re.match(r"(?:std|core)::f64::consts::(\w+)$|(?:std::|core::)?f64::(EPSILON|MAX|MIN|MIN_POSITIVE)$|f64::consts::(\w+)$", t)
+        if mc or t == "PI":
+            import sys as _sys
+            nm = "PI" if t == "PI" else (mc.group(1) or mc.group(2) or mc.group(3))
+            F64C = {"PI": math.pi, "TAU": math.tau, "E": math.e, "FRAC_PI_2": math.pi / 2, "FRAC_PI_3": math.pi / 3, "FRAC_PI_4": math.pi / 4,
+                    "FRAC_PI_6": math.pi / 6, "FRAC_PI_8": math.pi / 8, "FRAC_1_PI": 1 / math.pi, "FRAC_2_PI": 2 / math.pi, "SQRT_2": math.sqrt(2.0),
+                    "FRAC_1_SQRT_2": 1 / math.sqrt(2.0), "LN_2": math.log(2.0), "LN_10": math.log(10.0), "LOG2_E": math.log2(math.e),
+                    "LOG10_E": math.log10(math.e), "FRAC_2_SQRT_PI": 2 / math.sqrt(math.pi),
+                    "EPSILON": _sys.float_info.epsilon, "MAX": _sys.float_info.max, "MIN": -_sys.float_info.max, "MIN_POSITIVE": _sys.float_info.min}
+            if nm in F64C:
+                v = F64C[nm]
                 return v if self.mode == "float" else Fraction(v)
         # unit enum variant written as a constant, e.g. `Prayer::Isha`, or fn item
         ev = self.enum_variant(t)
